@@ -3,7 +3,7 @@
 import json, glob, os, re
 res = json.load(open('/verif/seeded/RESULTS.json')) if os.path.exists('/verif/seeded/RESULTS.json') else {}
 lines = []
-lines.append(str(len(glob.glob("/verif/seeded/C*-*"))) + " changes (four rounds: names without suffix digit, -2x, -3x, -4x) were produced by fresh sub-agents that were given only the text of one property and a scratch")
+lines.append(str(len(glob.glob("/verif/seeded/C*-*"))) + " changes (five rounds: names without suffix digit, -2x, -3x, -4x, -5x) were produced by fresh sub-agents that were given only the text of one property and a scratch")
 lines.append("worktree of `/repo` (nothing from `/verif`). Each was kept only after `tools/confirm_mutant.py` confirmed, in a")
 lines.append("scratch worktree under `/tmp`, that it applies to `/repo` HEAD, that `go build ./...` and `go build -tags verif .`")
 lines.append("succeed, that the 35 baseline tests still pass with it, and that its demonstration passes without the change and")
